@@ -30,6 +30,7 @@ EST = "dreye.api.estimator:ReceptorEstimator"
 
 def check(rep, an, tier):
     spec = D.hooks()
+    api_results = []
     # ---- register_system: A
     for given in (None, "array"):
         fields = est_fields("array", None)
@@ -40,6 +41,7 @@ def check(rep, an, tier):
         kw = dict(sources=src, domain=D.domain_val("domain") if given else none(), lb=arr("lb", S("SRC"), U_INT),
                   ub=arr("ub", S("SRC"), U_INT), labels=none(), Epsilon=none())
         res = an.run(f"{EST}.register_system", kws=kw, self_fields=fields, spec=spec, config=f"domain={given}")
+        api_results.append(res)
         entry = "ReceptorEstimator.register_system"
         st = [e for e in res.events("self_store") if e.d["attr"] == "A" and len(e.path) == 1]
         if not st:
@@ -156,6 +158,8 @@ def check(rep, an, tier):
                 R.rule_type_errors(rep, res, "QTY", "R-QTY", entry)
                 lit = [e for e in res.events("type_error") if e.d["facet"] == "QTY"]
                 D.consistency(rep, res, entry)
+    R.rule_api(rep, api_results, "ReceptorEstimator.register_system")
+    rep.require("R-API", 3)
     rep.require("R-SHAPE", 15)
     rep.require("R-QTY", 15)
     rep.require("R-FLOW", 20)
